@@ -131,3 +131,52 @@ def src_fn(run, file_suffix, name, impl_self=None, impl_trait=None):
 
 def spos(file, node):
     return "%s:%d" % (file, node["pos"][0]) if node and "pos" in node else file
+
+
+def field_accesses(prog, adt_suffix, crates=("svgbob",)):
+    """reads: operands whose place projects a field of the ADT; writes: assignment destinations.
+    returns (reads, writes): {field: [(body, stmt_or_term)]}"""
+    reads, writes = {}, {}
+    for p, b in prog.bodies.items():
+        if crates and b["crate"] not in crates:
+            continue
+        for blk in b["blocks"]:
+            items = list(blk["stmts"]) + [blk["term"]]
+            for st in items:
+                places = []
+                rv = st.get("rv")
+                if rv:
+                    for op in rv.get("ops", []):
+                        pl = op_place(op)
+                        if pl is not None:
+                            places.append(pl)
+                    if "place" in rv:
+                        places.append(rv["place"])
+                for op in st.get("args", []) or []:
+                    pl = op_place(op)
+                    if pl is not None:
+                        places.append(pl)
+                if st.get("k") == "switch":
+                    pl = op_place(st["on"])
+                    if pl is not None:
+                        places.append(pl)
+                for pl in places:
+                    for pr in pl["p"]:
+                        if isinstance(pr, dict) and "f" in pr and (pr.get("adt") or "").endswith(adt_suffix):
+                            reads.setdefault(pr.get("name"), []).append((p, st))
+                dst = st.get("dst")
+                if dst and rv is not None:
+                    prs = [pr for pr in dst["p"] if isinstance(pr, dict) and "f" in pr]
+                    if prs and (prs[-1].get("adt") or "").endswith(adt_suffix):
+                        writes.setdefault(prs[-1].get("name"), []).append((p, st))
+                    if rv.get("k") == "agg" and (rv.get("adt") or "").endswith(adt_suffix):
+                        for n in rv.get("fields") or []:
+                            writes.setdefault(n, []).append((p, st))
+    return reads, writes
+
+
+DERIVED = re.compile(r" as core::(fmt::Debug|clone::Clone|cmp::PartialEq|cmp::PartialOrd|cmp::Ord|cmp::Eq|hash::Hash|default::Default)>::")
+
+
+def is_derived_impl(path):
+    return bool(DERIVED.search(path))
